@@ -172,85 +172,16 @@ def fmtBasic : Str := "%Y%m%dT%H%M%S".toList
 
 def isDig (c : Char) : Bool := 48 ≤ c.toNat && c.toNat ≤ 57
 
-/-! ### The `time.strptime` fallback of `DateTimeOperator.strptime` (CPython `_strptime`)
-
-`DateTimeOperator.strptime` tries `TimePointParser.strptime` and, on any `ValueError`, falls back to
-`time.strptime`.  For the two ISO-like built-in formats that fallback is this regex (compiled with
-IGNORECASE, matched with `re.match`, and refused unless the match consumed the whole text —
-"unconverted data remains" — WITHOUT looking for another way to match):
-
-    %Y \d\d\d\d   %m 1[0-2]|0[1-9]|[1-9]   %d 3[0-1]|[1-2]\d|0[1-9]|[1-9]| [1-9]
-    %H 2[0-3]|[0-1]\d|\d   %M [0-5]\d|\d   %S 6[0-1]|[0-5]\d|\d
-
-so fields may be un-padded, and `T` may be `t`. -/
-
-/-- A digit between `lo` and `hi`. -/
-def dig (lo hi : Nat) (c : Char) : Bool := 48 + lo ≤ c.toNat && c.toNat ≤ 48 + hi
-
-/-- One regex token of the compiled format. -/
-inductive Tok where
-  /-- a named group: its alternatives in order, each a sequence of digit ranges -/
-  | fld (alts : List (List (Nat × Nat)))
-  | lit (c : Char)
-  /-- `T` under IGNORECASE -/
-  | litT
-  deriving DecidableEq, Repr
-
-/-- One alternative at the front of `s`: (the value of the digits matched, the rest). -/
-def altMatch : List (Nat × Nat) → Nat → Str → Option (Nat × Str)
-  | [], acc, s => some (acc, s)
-  | _ :: _, _, [] => none
-  | (lo, hi) :: cs, acc, x :: xs => if dig lo hi x then altMatch cs (10 * acc + (x.toNat - 48)) xs else none
-
-/-- Every way of matching the tokens at the front of `s`, in the order a backtracking matcher
-    finds them: (field values, unconsumed rest). -/
-def matchToks : List Tok → Str → List (List Nat × Str)
-  | [], s => [([], s)]
-  | .lit _ :: _, [] => []
-  | .lit c :: ts, x :: xs => if x = c then matchToks ts xs else []
-  | .litT :: _, [] => []
-  | .litT :: ts, x :: xs => if x = 'T' ∨ x = 't' then matchToks ts xs else []
-  | .fld alts :: ts, s =>
-    alts.flatMap fun a =>
-      match altMatch a 0 s with
-      | some (v, r) => (matchToks ts r).map fun (vs, r') => (v :: vs, r')
-      | none => []
-
-def fY : Tok := .fld [[(0, 9), (0, 9), (0, 9), (0, 9)]]
-def fm : Tok := .fld [[(1, 1), (0, 2)], [(0, 0), (1, 9)], [(1, 9)]]
-def fd : Tok := .fld [[(3, 3), (0, 1)], [(1, 2), (0, 9)], [(0, 0), (1, 9)], [(1, 9)]]
-def fH : Tok := .fld [[(2, 2), (0, 3)], [(0, 1), (0, 9)], [(0, 9)]]
-def fM : Tok := .fld [[(0, 5), (0, 9)], [(0, 9)]]
-def fS : Tok := .fld [[(6, 6), (0, 1)], [(0, 5), (0, 9)], [(0, 9)]]
-
-def toksExt : List Tok := [fY, .lit '-', fm, .lit '-', fd, .litT, fH, .lit ':', fM, .lit ':', fS]
-def toksBasic : List Tok := [fY, fm, fd, .litT, fH, fM, fS]
-
-/-- `time.strptime(s, fmt)` as far as the regex: the FIRST match must consume everything. -/
-def pyMatch (toks : List Tok) (s : Str) : Option (List Nat) :=
-  match matchToks toks s with
-  | (vs, []) :: _ => some vs
-  | _ => none
-
-/-- `get_datetime_strptime`: `time.strptime` (its `datetime.date(year, month, day)` check is the
-    proleptic Gregorian calendar from year 1) and then `TimePoint(year, month, day, hour, minute,
-    second)` in the current calendar mode, UTC.  `none` = `ValueError`. -/
-def fallbackStrptime (m : Mode) (toks : List Tok) (s : Str) : Option TP :=
-  match pyMatch toks s with
-  | some [y, mo, d, h, mi, sec] =>
-    let date : Date := .cal y mo d
-    if 1 ≤ y ∧ Strf.dateOk .greg date = true ∧ Strf.dateOk m date = true ∧ Strf.timeOk m h mi sec = true then
-      some ⟨date, h, mi, sec, ⟨0, 0⟩⟩
-    else none
-  | _ => none
-
-/-- One built-in strptime format of `PARSE_FORMATS` (the two ISO-like ones; the two `ctime`-like
-    ones need white space in the text and never match a text of the domain): `none` = `ValueError`
-    from both `TimePointParser.strptime` and the fallback, try the next. -/
-def tryStrp (st : Setup) (s fmt : Str) (toks : List Tok) : Option Parsed :=
+/-- One built-in strptime format of `PARSE_FORMATS`.  `DateTimeOperator.strptime` goes to the
+    `time.strptime` fallback only on `StrftimeSyntaxError` (a directive the library does not
+    implement).  The two ISO-like formats use implemented directives only, so for them any failure
+    of `TimePointParser.strptime` is a `ValueError` that `date_parse` answers by trying the next
+    format (`none`).  The two `ctime`-like formats (`%a %b … %Z`) do take the fallback, whose regex
+    needs white space in the text: they never match a text of the domain. -/
+def tryStrp (st : Setup) (s fmt : Str) : Option Parsed :=
   match Strf.strptime st.mode st.strpCfg st.loc s fmt with
   | .ok tp => some ⟨tp, 0, fmt⟩
-  | .error _ => (fallbackStrptime st.mode toks s).map fun tp => ⟨tp, 0, fmt⟩
+  | .error _ => none
 
 /-- The ISO 8601 branch: `time_point_parser.parse(s, dump_as_parsed=True)`. -/
 def parseIso (st : Setup) (s : Str) (asParsed : Bool) : Res Parsed :=
@@ -272,10 +203,10 @@ def utcIf (st : Setup) (p : Parsed) : Res Parsed :=
 /-- The attempts of `date_parse` in order: the two ISO-like built-in strptime formats, then the
     ISO 8601 parser with `dump_as_parsed=True`. -/
 def parseAny (st : Setup) (s : Str) : Res Parsed :=
-  match tryStrp st s fmtExt toksExt with
+  match tryStrp st s fmtExt with
   | some P => .ok P
   | none =>
-    match tryStrp st s fmtBasic toksBasic with
+    match tryStrp st s fmtBasic with
     | some P => .ok P
     | none => parseIso st s true
 
